@@ -56,11 +56,24 @@ def validate_program(chk, m, r, src, level):
                 chk.count("validator_certified_functions_with_changes")
         elif a.startswith("ok rejected"):
             bad += 1
-            k = int(a.split()[2])
-            g = f["generated"]["lines"]
+            parts = a.split()
+            k = int(parts[2])
+            reason = parts[4] if len(parts) > 4 else "other"
+            g = f["generated"]["lines"]; o = f["optimized"]["lines"]
             why = g[k][1] if k < len(g) and g[k][0] == "I" else "other"
+            became = ("removed" if o[k][0] == "D" else "exchanged-with-" + o[k][1] if o[k][0] == "I" else "other") if k < len(o) else "other"
             chk.count("validator_uncertified_functions")
             chk.count("validator_uncertified_at_" + why)
+            # the documented gaps of the validator (DESIGN.md): a folded compare whose flags are not provably dead by
+            # the straight-line liveness scan; a load moved over two flag instructions; a PLA/PHA pair. A function
+            # the validator rejects for any other reason is an optimisation nobody has justified
+            gap = (why in ("CMP", "CPX", "CPY") and became == "removed" and reason in ("carry", "flags")) or \
+                  (why == "LDA" and became in ("exchanged-with-SEC", "exchanged-with-CLC")) or (why == "PLA" and became == "removed")
+            chk.count("validator_gap_" + (reason if why in ("CMP", "CPX", "CPY") else why) if gap else "validator_unjustified")
+            if not gap and len(chk.proof_problems) < 6:
+                chk.proof_problems.append("function %s at -O%d is not certified by the proved validator and the rejection (line %d: %s %s, %s) is not one of its documented gaps: [%s] -> [%s]" % (
+                    unhx(f["name"]), level, k, why, became, reason, " | ".join(show_line(l).strip() for l in g[max(0, k - 3):k + 4]), " | ".join(show_line(l).strip() for l in o[max(0, k - 3):k + 4])))
+                chk.coverage.setdefault("unjustified_sources", []).append(src[:1500])
             if len(chk.coverage.setdefault("uncertified_samples", [])) < 6:
                 chk.coverage["uncertified_samples"].append({"function": unhx(f["name"]), "level": level, "line": k,
                     "before": [show_line(l) for l in g[max(0, k - 3):k + 4]],
@@ -120,7 +133,7 @@ def run(chk):
                                      inline_rate=0.0, gotos=rng.random() < 0.3).text)
     # the deterministic idiom matrices (tools/matrix.py): -O0 against -O1..3 on every block
     import matrix
-    sources += [p.text for p in matrix.all_programs(["update-then-test", "update-then-loop", "comparisons", "far", "switch"])]
+    sources += [p.text for p in matrix.all_programs(["update-then-test", "update-then-loop", "comparisons", "far", "switch", "triples"])]
     nstates = chk.scale(12, 64)
     for src in sources:
         r0 = h.compile(src, 0)
